@@ -71,6 +71,46 @@ func (st *State) Call(fv *FuncV, args []Value, deferOf *frame) Value {
 		}
 		return h(st, args)
 	}
+	if fv.Made != nil {
+		// a function made by reflect.MakeFunc called as an ordinary Go function: the body
+		// receives the arguments as reflect.Values and returns the results the same way
+		body := *fv
+		body.Made = nil
+		var in []Value
+		for k, x := range args {
+			rt := st.E.rtypeOfGo(fv.Made.Params().At(k).Type())
+			in = append(in, &RVal{Kind: rt.Kind, Typ: rt, Val: x})
+		}
+		var sl Value = &SliceV{}
+		if len(in) > 0 {
+			o := st.newObject(nil, "callargs", &ArrayV{E: in})
+			sl = &SliceV{Obj: o, Len: len(in), Cap: len(in)}
+		}
+		r := st.Call(&body, []Value{sl}, deferOf)
+		var outs []Value
+		if rs, ok := r.(*SliceV); ok {
+			for k, e := range st.sliceElems(rs) {
+				pv := st.rpayload(e.(*RVal))
+				if rt := fv.Made.Results().At(k).Type(); types.IsInterface(rt) {
+					if _, isI := pv.(*IfaceV); !isI {
+						gt := e.(*RVal).Typ.GoType
+						if gt == nil {
+							gt = kindGoType(e.(*RVal).Kind)
+						}
+						pv = &IfaceV{T: gt, V: pv}
+					}
+				}
+				outs = append(outs, pv)
+			}
+		}
+		switch len(outs) {
+		case 0:
+			return nil
+		case 1:
+			return outs[0]
+		}
+		return TupleV(outs)
+	}
 	if fv.Recv != nil {
 		// a method value obtained through reflection: the receiver is bound
 		args = append([]Value{fv.Recv}, args...)
